@@ -1272,6 +1272,14 @@ func (f *VFSFile) buildIndexMap(ctx context.Context, infos []*ltx.FileInfo) (map
 		commit = hdr.Commit
 	}
 
+	// Drop pages beyond the final database size. An earlier file in the plan
+	// may describe a larger database than the one the last file commits.
+	for pgno := range index {
+		if pgno > commit {
+			delete(index, pgno)
+		}
+	}
+
 	f.mu.Lock()
 	f.commit = commit
 	f.mu.Unlock()
